@@ -74,13 +74,13 @@ def known_matcher(v, k):
 
 
 class Limiter:
-    """report at most `cap` violations per kind to the Report (the rest is counted)"""
+    """report at most `cap` violations per (kind, verbatim copy or not) to the Report (the rest is counted)"""
 
     def __init__(self, rep, cap=40):
         self.rep, self.cap, self.n = rep, cap, {}
 
     def violation(self, v):
-        k = v["kind"]
+        k = (v["kind"], v.get("verbatim_copy"))
         self.n[k] = self.n.get(k, 0) + 1
         known = any(known_matcher(v, e) for e in self.rep.known)
         if known or self.n[k] <= self.cap:
